@@ -9,7 +9,8 @@ EXPLANATION = (
     'to a term in which the argument occurs outside a dirname(...) -- only the parent is '
     'resolved; (R18.3) the MOVE source passes a trailing-separator stripper and no '
     'link-resolving function, so "link/" names the link; (R18.4) the recorded location is '
-    'join(<resolved parent>, basename(normpath(ARG))); (R18.5) trash-restore brings the '
+    'join(<resolved parent>, basename(normpath(ARG))), the parent resolved by realpath in '
+    'every alternative; (R18.5) trash-restore brings the '
     'payload back with a MOVE primitive (no dereferencing copy).  Decides which path terms '
     'reach which primitive; rename/shutil.move treatment of links is A1/A2.')
 ASSUMPTIONS = ['A1 rename(2) moves a symlink itself', 'A2 shutil.move recreates links']
